@@ -232,6 +232,15 @@ def generate(rng, tier):
             pool.append(_mutate_geom(rng, rng.choice(pool), hi))
         else:
             pool.append(_base_geom(rng, hi))
+    if core.rare(rng, 0.004, phase=11):
+        # one axis beyond a thousand samples (block / tile boundaries inside the executors), the others tiny
+        L = rng.choice([1025, 1300, 1500, 2049, 2100, rng.randint(1025, 2200)])
+        s1, s2, s3 = rng.randint(1, 6), rng.randint(1, 6), rng.randint(1, 6)
+        lg = rng.choice([{"in": [s1, L], "out": [s2, s3]}, {"in": [s1, s2], "out": [L, s3]},
+                         {"in": [s1, s2], "out": [s3, L]}, {"in": [s1, L], "out": [s2, L]}])
+        lg.update({"Q": rng.choice([1, 1.0, 2, 1.5, _rq(rng)]), "shift": rng.choice([[0, 0], _rshift(rng)])})
+        pool.append(lg)
+        pool.append(dict(lg, Q=_rq(rng)))
     arrays = {}
 
     def arr_for(shape, want_new=False):
@@ -353,13 +362,29 @@ def generate(rng, tier):
         elif kind == "pollute":
             g = rng.choice(pool)
             pk = rng.choice(["dft2_backprop", "idft2_backprop", "resample", "nbytes", "ffs_backprop",
-                             "ufs_backprop", "wf_ffs_backprop"])
+                             "ufs_backprop", "wf_ffs_backprop", "q_scan", "pad_outshape"])
             op = {"op": "pollute", "kind": pk, "g": g, "seed": rng.getrandbits(32),
                   "zoom": rng.choice([0.5, 1.5, 2, 2.0, [1.5, 0.75]])}
+            if pk == "q_scan":
+                # somebody scans Q (a wavelength or defocus loop) on the same shapes: many more cached
+                # geometries than any small bound, all of one shape
+                op["count"] = rng.choice([66, 70, 130, 260]) if max(g["in"] + _norm_out_list(g["out"])) <= 64 else 3
+                op["routes"] = rng.choice([["mdft"], ["czt"], ["mdft", "czt"]])
+            elif pk == "pad_outshape":
+                # somebody pads an array of a shape (and with a Q) that a padded-FFT propagation of this run
+                # uses, but to an explicit out_shape
+                if fft_family and rng.random() < 0.7:
+                    pm, pn, pq = rng.choice(fft_family)
+                else:
+                    pm, pn = g["in"]
+                    pq = rng.choice([2, 2, _fft_Q(rng, pm, pn)])
+                op.update({"shape": [pm, pn], "Q": pq, "grow": [rng.randint(0, 5), rng.randint(0, 5)]})
+                if pm * pn > 4096:
+                    op["kind"] = "nbytes"
         else:
             g = rng.choice(pool)
             op = {"op": "poison", "kind": rng.choice(["list_samples", "int_fracshift", "bad_Q", "uint8_samples", "uint8_samples",
-                                                     "f32_Q", "cube_everywhere", "cube_everywhere"]),
+                                                     "f32_Q", "f32_Qpair", "f32_Qpair", "cube_everywhere", "cube_everywhere"]),
                   "g": g, "seed": rng.getrandbits(32)}
         if op.get("arr") in arrays and arrays[op["arr"]].get("kind") == "derived" and kind in ("ffs", "focus"):
             op["wf"] = True                      # arrays made by Wavefront.pad2d/crop live inside their Wavefront
@@ -404,6 +429,10 @@ def _norm_q(Q):
     if isinstance(Q, (list, tuple)):
         return float(Q[0]), float(Q[1])
     return float(Q), float(Q)
+
+
+def _norm_out_list(out):
+    return list(out) if isinstance(out, (list, tuple)) else [out, out]
 
 
 def _norm_out(out):
@@ -662,6 +691,23 @@ def _pollute(np, ft, pr, op):
         elif k == "wf_ffs_backprop":
             fbar = rs.standard_normal(out) + 1j * rs.standard_normal(out)
             pr.Wavefront(fbar, 0.5, 1.0, space="psf").focus_fixed_sampling_backprop(100.0, 0.1, (m, m), shift=shift)
+        elif k == "q_scan":
+            a = rs.standard_normal((m, n)) + 1j * rs.standard_normal((m, n))
+            for j in range(op["count"]):
+                qj = 0.5 + 0.03125 * j + (0.001 if j % 2 else 0.0)
+                if "mdft" in op["routes"]:
+                    (ft.mdft.dft2 if j % 3 else ft.mdft.idft2)(a, qj, out, shift=shift)
+                if "czt" in op["routes"]:
+                    (ft.czt.czt2 if j % 3 else ft.czt.iczt2)(a, qj, out, shift=shift)
+        elif k == "pad_outshape":
+            pm, pn = op["shape"]
+            a = rs.standard_normal((pm, pn))
+            qq = op["Q"]
+            oshape = (math.ceil(pm * qq) + op["grow"][0], math.ceil(pn * qq) + op["grow"][1])
+            ft.pad2d(a, Q=qq, out_shape=oshape)
+            ft.pad2d(a, out_shape=(2 * pm + op["grow"][1], 2 * pn + op["grow"][0]))
+            big = pr.Wavefront(a + 0j, 0.5, 1.0).pad2d(qq, out_shape=oshape, inplace=False)
+            ft.crop_center(np.asarray(big.data), (pm, pn))
         return "ok"
     except Exception as e:  # outcome of polluters is not judged
         return "raised:" + type(e).__name__
@@ -729,6 +775,16 @@ def _poison(np, ft, op):
             for fn in (ft.czt.czt2, ft.mdft.dft2):
                 try:
                     fn(rs.standard_normal((m, n)), np.float32(_norm_q(g["Q"])[0]), out)
+                except Exception:
+                    pass
+        elif k == "f32_Qpair":
+            # per-axis Q given as a pair of numpy float32 scalars (what float32 bookkeeping upstream hands
+            # over), same geometry and shift as an ordinary call of this run, every entry point
+            qy, qx = _norm_q(g["Q"])
+            shift = tuple(g["shift"])
+            for fn in (ft.mdft.dft2, ft.mdft.idft2, ft.czt.czt2, ft.czt.iczt2):
+                try:
+                    fn(rs.standard_normal((m, n)), (np.float32(qy), np.float32(qx)), out, shift=shift)
                 except Exception:
                     pass
         return "ok"
